@@ -13,7 +13,8 @@ LEVEL = "exploration"
 RULE = ("Hypothesis-drawn validated histories (forks, multi-input/-output spends, reorganisations; in half of them also the "
         "same transaction mined on two forks and identical reward transactions on siblings) with a drawn batching of the "
         "accepted blocks into add_block_to_buffer / flush calls (directly and through DiskInterface + DefaultBlockStore) and a "
-        "reload after EVERY flush (file closed, new BlockStore; also read through the writing connection). Oracle: "
+        "reload after EVERY flush (file closed, new BlockStore; also read through the writing connection); in 30% of the histories "
+        "another thread buffers the next block while a flush is inside its SQL write (schedule injection at that point). Oracle: "
         "read_blocks_from_disk() == written blocks + genesis: same id set, byte-identical serialize(), id == sha256d(header), "
         "parents before children; rebuilding as scripts.utils.read_chain_from_disk does raises nowhere, gives reference-equal "
         "unspent maps at every block and a head of the live height. A mismatch is classified against a deliberately faulty "
@@ -83,11 +84,45 @@ def execute(case):
                     if t.id() in seen_tx:
                         info["shared_ids"] = True
                     seen_tx.add(t.id())
+            racer = None
+            if case.get("interleave") and pos < len(accepted):
+                # schedule injection: while this flush is inside its SQL write, another thread (the network thread in
+                # production) buffers the next block.  Correct code makes that thread wait or keeps its block.
+                import threading
+                late = accepted[pos]
+                pos += 1
+                orig_write = store.write_blocks_to_disk
+                state = {"fired": False}
+
+                def write_and_interleave(blocks):
+                    if not state["fired"]:
+                        state["fired"] = True
+                        t = threading.Thread(target=lambda: store.add_block_to_buffer(b.to_sk_block(late)))
+                        t.daemon = True
+                        t.start()
+                        t.join(0.1)                      # bounded wait only; correctness never depends on who wins
+                        state["thread"] = t
+                    return orig_write(blocks)
+
+                store.write_blocks_to_disk = write_and_interleave
+                racer = (late, state, orig_write)
+                info["interleaved_appends"] = info.get("interleaved_appends", 0) + 1
             try:
                 if case.get("via") == "disk_interface":
                     di.flush_blocks()
                 else:
                     store.flush_blocks_to_disk()
+                if racer is not None:
+                    late, state, orig_write = racer
+                    store.write_blocks_to_disk = orig_write
+                    if state.get("thread") is not None:
+                        state["thread"].join(5)
+                    for t in late.txs:
+                        if t.id() in seen_tx:
+                            info["shared_ids"] = True
+                        seen_tx.add(t.id())
+                    store.flush_blocks_to_disk()         # the late block is written by the next flush at the latest
+                    batch = batch + [late]
             except Exception as e:
                 fail("flush", "flush-raised:" + exc_sig(e), "flush of %d blocks raised %r" % (len(batch), e))
                 break
@@ -190,7 +225,7 @@ def run(shard, tier, seed):
             k = min(left, rnd.choice([1, 1, 2, 3, 5]))
             batches.append(k)
             left -= k
-        case.update(batches=batches, via=via, form=form)
+        case.update(batches=batches, via=via, form=form, interleave=rnd.random() < 0.3)
         try:
             fails, info = execute(case)
         except env.HarnessError as e:
